@@ -146,6 +146,19 @@ int main(int argc, char** argv) {
             const double comp[3] = {ax.dx(), ax.dy(), ax.dz()};
             axis_ok = std::abs(std::abs(comp[la]) - 1.) < 1e-6 && std::abs(ax.norm() - 1.) < 1e-9;
         }
+        // the same after a GENERIC rotation (the 24 lattice rotations of the cases only permute the axes): the long axis must follow
+        if (la >= 0 && err.empty()) {
+            cell_ptr cr = std::make_shared<cell>(*c);
+            const vec3 ax1(1., 0., 0.), ax2(0., 1., 0.);
+            const double th1 = 0.7 + 0.01 * (double)(C["k"].i() % 7), th2 = 0.4 + 0.02 * (double)(C["k"].i() % 5);
+            auto R = [&](const vec3& v) { return v.rotate_around_axis(ax1, th1).rotate_around_axis(ax2, th2); };
+            for (auto& n : cell_tester::nodes(*cr)) if (n.is_used()) cell_tester::pos(n) = R(n.pos());
+            cr->update_all_face_normals_and_areas();
+            cell_tester::area(*cr) = cr->compute_area(); cell_tester::volume(*cr) = cr->compute_volume();
+            vec3 e(la == 0, la == 1, la == 2);
+            const vec3 want = R(e), got = cr->get_cell_longest_axis();
+            if (!(std::abs(want.dot(got)) > 1. - 1e-6 && std::abs(got.norm() - 1.) < 1e-9)) axis_ok = false;
+        }
         // the same on an UNEVENLY sampled copy: a few edges at one end of the long side are split (the surface is unchanged, the node
         // mean moves away from the area centroid), so that an axis computed from sums that mix the two would tilt with the position
         if (la >= 0 && err.empty()) {
